@@ -128,7 +128,7 @@ def main():
         "setup_cmd": "./check --build",
         "hooks": {
             "guard": "cargo feature verif_hooks",
-            "enable": "harness/Cargo.toml depends on string_calculator = { path = \"/repo\", features = [\"verif_hooks\"] }; every ./check run starts with cargo build, so edits under /repo are picked up",
+            "enable": "harness/Cargo.toml depends on string_calculator = { path = \"/repo\" } and forwards its default feature `hooks` to /repo's `verif_hooks` (rel, oc and dbg builds); the same harness is also built with --no-default-features (hooks off, target-nohook) and every check except C02 runs on that build too; every ./check run starts with cargo build, so edits under /repo are picked up",
             "baseline_off_cmd": "cd /repo && cargo test --workspace --no-fail-fast --offline",
             "source_commits": HOOK_COMMITS,
             "add_only": True,
